@@ -150,6 +150,10 @@ func New(cfg Cfg) *World {
 	if cfg.BanYAML != "" {
 		must(os.WriteFile(filepath.Join(w.ConfigDir, "Banlist.yaml"), []byte(cfg.BanYAML), 0644))
 	}
+	for i := range cfg.Accounts {
+		// "$CONFIG" in a per-account file root stands for this world's config directory
+		cfg.Accounts[i].FileRoot = strings.ReplaceAll(cfg.Accounts[i].FileRoot, "$CONFIG", w.ConfigDir)
+	}
 	for _, a := range cfg.Accounts {
 		must(os.WriteFile(filepath.Join(w.UsersDir, a.Login+".yaml"), []byte(AccountYAML(a)), 0644))
 	}
